@@ -515,6 +515,16 @@ where
         #[cfg(debug_assertions)]
         tracing::trace!(id=%self.id, "drop for checkout");
 
+        // A connection taken from the idle list which was never handed out
+        // goes back to the pool instead of being destroyed with the checkout.
+        if let Some(connection) = self.as_mut().project().connection.take() {
+            if connection.is_open() {
+                if let Some(mut pool) = self.pool.lock() {
+                    pool.push(self.token, connection, self.pool.clone());
+                }
+            }
+        }
+
         if let Some(checkout) = self.as_mut().as_delayed() {
             tokio::task::spawn(async move {
                 if let Err(err) = checkout.await {
